@@ -591,9 +591,9 @@ func init() {
 	reg(ctxm+"KVStore", "handle on the module's KV store in the context's world", func(x *Exec, st *State, ci *callInfo, a []Val) Val {
 		c := a[0].(*CtxV)
 		name := "Store"
-		if o, ok := a[1].(*OpaqueV); ok {
-			if n, ok := o.Data["storename"]; ok {
-				name = n.(T).S
+		for f := ci.fr.fn; f != nil; f = f.Parent() {
+			if f.Pkg != nil && strings.Contains(f.Pkg.Pkg.Path(), "/x/oracle") {
+				name = "OStore"
 			}
 		}
 		return &OpaqueV{Tag: "kvstore", Data: map[string]Val{"world": IntLit(int64(c.World)), "name": T{S: name}}}
